@@ -11,7 +11,7 @@ from ..loader import AnalysisError, ekey
 from .. import frames
 from .anchors import anchors
 from .common import short, mentions
-from .c01 import rule_routing, REQUIRED
+from .c01 import rule_routing, REQUIRED, required_facts
 
 
 def rule_projection_list(eng, rep, rule="C09-2.bound-box-projected-last-and-never-mutated"):
@@ -49,7 +49,7 @@ def rule_projection_list(eng, rep, rule="C09-2.bound-box-projected-last-and-neve
     else:
         rep.bad(rule, site, "solver.solve|box-appended-to-callers-list", "the box projector is appended to a list that is not a fresh copy of the caller's projections")
     # the appended callable clamps against copies of the user's bounds taken before xl/xu are overwritten: decided by frames
-    for c in frames.CONFIGS:
+    for c in frames.CONFIGS + frames.ONE_SIDED:
         if not c.proj:
             continue
         it = frames.analyse(eng, c)
@@ -63,8 +63,8 @@ def rule_projection_list(eng, rep, rule="C09-2.bound-box-projected-last-and-neve
             continue
         sub, cenv = it.closures[last.tag]
         probe = it.invoke({"fi": sub, "rets": []}, None, sub, [frames.vec("?", tag="probe")], {}, cenv.now())
-        if frames.is_vec(probe) and REQUIRED <= set(probe.ex):
-            rep.ok(rule, "Model.projections [%r]" % c, "last projector `%s` clamps against the user's bounds (lo:user.xl, hi:user.xu); %d user projector(s) before it" % (short(sub.node, 40), len(pl.items) - 1))
+        if frames.is_vec(probe) and required_facts(c) <= set(probe.ex):
+            rep.ok(rule, "Model.projections [%r]" % c, "last projector `%s` clamps against the user's bounds (%s); %d user projector(s) before it" % (short(sub.node, 40), ", ".join("%s:%s" % f for f in sorted(required_facts(c))), len(pl.items) - 1))
         else:
             rep.bad(rule, "Model.projections [%r]" % c, "solver.solve|box-projector-not-true-box", "last projector `%s` does not clamp against copies of the user's bounds (facts %s)" % (short(sub.node, 40), sorted(probe.ex) if frames.is_vec(probe) else probe.k))
         for p in pl.items[:-1]:
@@ -103,7 +103,7 @@ def rule_scaling_off_with_projections(eng, rep, rule="C09-5.scaling-off-whenever
 def rule_evaluations_are_dykstra_outputs(eng, rep, rule="C09-1.every-evaluated-point-is-a-direct-dykstra-output"):
     A = anchors(eng)
     n = 0
-    for c in frames.CONFIGS:
+    for c in frames.CONFIGS + frames.ONE_SIDED:
         if not c.proj:
             continue
         it = frames.analyse(eng, c)
@@ -116,7 +116,7 @@ def rule_evaluations_are_dykstra_outputs(eng, rep, rule="C09-1.every-evaluated-p
                 continue
             seen.add(key)
             n += 1
-            if REQUIRED <= set(x.ex):
+            if required_facts(c) <= set(x.ex):
                 rep.ok(rule, "x handed to objfun [%r]" % c, "value is the un-modified output of a Dykstra call whose last projector is the true box")
             else:
                 rep.bad(rule, "x handed to objfun [%r]" % c, "not-a-dykstra-output|%s" % (x.why or "never projected")[:80],
